@@ -114,10 +114,12 @@ impl<'a> Gen<'a> {
         let cfg = self.cfg;
         let vars = visible(cx, Some(ty), false);
         let mut c: Vec<(Form, usize)> = Vec::new();
-        if !vars.is_empty() { c.push((Form::Var, cfg.w_var)); }
+        // leaves become unlikely when there is budget left, so that bodies really use their size
+        let leafw = |w: usize| if size >= 8 { 0 } else if size >= 4 { w / 4 } else { w };
+        if !vars.is_empty() { c.push((Form::Var, leafw(cfg.w_var))); }
         let is_int = *ty == Ty::Int;
         let codata = self.is_codata(ty);
-        if is_int { c.push((Form::Lit, cfg.w_lit)); if size >= 3 { c.push((Form::Op, cfg.w_op)); } }
+        if is_int { c.push((Form::Lit, leafw(cfg.w_lit))); if size >= 3 { c.push((Form::Op, cfg.w_op)); } }
         if size >= 4 { c.push((Form::If, cfg.w_if)); }
         if size >= 3 { c.push((Form::Let, cfg.w_let)); }
         if size >= 3 && self.pool.iter().any(|t| self.is_data(t)) { c.push((Form::Case, cfg.w_case)); }
@@ -135,7 +137,7 @@ impl<'a> Gen<'a> {
             if cfg.prints { c.push((Form::Print, cfg.w_print)); }
         }
         c.push((Form::Paren, cfg.w_paren));
-        for _ in 0..4 {
+        for _ in 0..6 {
             let total: usize = c.iter().map(|x| x.1).sum();
             if total == 0 { break; }
             let mut r = self.rng.below(total);
